@@ -48,69 +48,29 @@ theorem eval_interp (t : Term) (σ : Var → Int) : t.interp.eval σ = t.den σ 
   | vsub i a ih => simp [interp, den, eval_sub, ih]
   | ren a m ih => simp only [interp, den, eval_rename (interp_sorted a), ih]
 
-/-- no leaf `linear_expression(Number 0, variable)` / `0 * x` in the history -/
-def NoZeroLeaf : Term → Prop
-  | num _ => True
-  | var _ => True
-  | term k _ => k ≠ 0
-  | add a b => NoZeroLeaf a ∧ NoZeroLeaf b
-  | sub a b => NoZeroLeaf a ∧ NoZeroLeaf b
-  | neg a => NoZeroLeaf a
-  | scale _ a => NoZeroLeaf a
-  | addn a _ => NoZeroLeaf a
-  | subn a _ => NoZeroLeaf a
-  | addv a _ => NoZeroLeaf a
-  | subv a _ => NoZeroLeaf a
-  | nadd _ a => NoZeroLeaf a
-  | nsub _ a => NoZeroLeaf a
-  | vadd _ a => NoZeroLeaf a
-  | vsub _ a => NoZeroLeaf a
-  | ren a _ => NoZeroLeaf a
-
-instance decNoZeroLeaf : (t : Term) → Decidable (NoZeroLeaf t)
-  | num _ => isTrue trivial
-  | var _ => isTrue trivial
-  | term k _ => by unfold NoZeroLeaf; exact inferInstance
-  | add a b => by
-      unfold NoZeroLeaf
-      exact @instDecidableAnd _ _ (decNoZeroLeaf a) (decNoZeroLeaf b)
-  | sub a b => by
-      unfold NoZeroLeaf
-      exact @instDecidableAnd _ _ (decNoZeroLeaf a) (decNoZeroLeaf b)
-  | neg a => by unfold NoZeroLeaf; exact decNoZeroLeaf a
-  | scale _ a => by unfold NoZeroLeaf; exact decNoZeroLeaf a
-  | addn a _ => by unfold NoZeroLeaf; exact decNoZeroLeaf a
-  | subn a _ => by unfold NoZeroLeaf; exact decNoZeroLeaf a
-  | addv a _ => by unfold NoZeroLeaf; exact decNoZeroLeaf a
-  | subv a _ => by unfold NoZeroLeaf; exact decNoZeroLeaf a
-  | nadd _ a => by unfold NoZeroLeaf; exact decNoZeroLeaf a
-  | nsub _ a => by unfold NoZeroLeaf; exact decNoZeroLeaf a
-  | vadd _ a => by unfold NoZeroLeaf; exact decNoZeroLeaf a
-  | vsub _ a => by unfold NoZeroLeaf; exact decNoZeroLeaf a
-  | ren a _ => by unfold NoZeroLeaf; exact decNoZeroLeaf a
-
-/-- without a zero leaf the replayed expression has no zero coefficient -/
-theorem interp_noZero (t : Term) (h : t.NoZeroLeaf) : t.interp.NoZero := by
+/-- the replayed expression never stores a zero coefficient -/
+theorem interp_noZero (t : Term) : t.interp.NoZero := by
   induction t with
   | num k => exact noZero_const k
   | var i => exact noZero_var i
-  | term k i => exact noZero_term i h
-  | add a b iha _ => exact noZero_add _ (iha h.1)
-  | sub a b iha _ => exact noZero_sub _ (iha h.1)
+  | term k i => exact noZero_term k i
+  | add a b iha _ => exact noZero_add _ iha
+  | sub a b iha _ => exact noZero_sub _ iha
   | neg a _ => exact noZero_neg _
   | scale k a _ => exact noZero_scale _ k
-  | addn a k ih => exact noZero_addNum k (ih h)
-  | subn a k ih => exact noZero_subNum k (ih h)
-  | addv a i ih => exact noZero_addVar i (ih h)
-  | subv a i ih => exact noZero_subVar i (ih h)
-  | nadd k a ih => exact noZero_addNum k (ih h)
+  | addn a k ih => exact noZero_addNum k ih
+  | subn a k ih => exact noZero_subNum k ih
+  | addv a i ih => exact noZero_addVar i ih
+  | subv a i ih => exact noZero_subVar i ih
+  | nadd k a ih => exact noZero_addNum k ih
   | nsub k a _ => exact noZero_sub _ (noZero_const k)
-  | vadd i a ih => exact noZero_addVar i (ih h)
-  | vsub i a _ => exact noZero_sub _ (noZero_term i (by decide))
+  | vadd i a ih => exact noZero_addVar i ih
+  | vsub i a _ => exact noZero_sub _ (noZero_term 1 i)
   | ren a m _ => exact noZero_rename _ m
 
-theorem interp_canonical (t : Term) (h : t.NoZeroLeaf) : t.interp.Canonical :=
-  ⟨interp_sorted t, interp_noZero t h⟩
+/-- every expression built through the public constructors and operators is canonical -/
+theorem interp_canonical (t : Term) : t.interp.Canonical :=
+  ⟨interp_sorted t, interp_noZero t⟩
 
 end Term
 
@@ -160,6 +120,51 @@ theorem interp_sorted {c : CTerm} {r : Cst} (h : c.interp = some r) : r.expr.Sor
     | some r' =>
       simp only [hc, Option.some.injEq] at h; subst h
       exact sorted_rename _ m
+
+theorem interp_noZero {c : CTerm} {r : Cst} (h : c.interp = some r) : r.expr.NoZero := by
+  induction c generalizing r with
+  | mk k t => simp only [interp, Option.some.injEq] at h; subst h; exact Term.interp_noZero t
+  | rel op a b =>
+    simp only [interp, Option.some.injEq] at h; subst h
+    cases op <;> exact noZero_sub _ (Term.interp_noZero _)
+  | negate c ih =>
+    simp only [interp] at h
+    cases hc : c.interp with
+    | none => simp [hc] at h
+    | some r' =>
+      simp only [hc, Option.some.injEq] at h; subst h
+      have hs := ih hc
+      unfold Cst.negate Cst.negateWith
+      split
+      · exact noZero_const 0
+      · split
+        · exact noZero_const 0
+        · obtain ⟨e, k⟩ := r'
+          cases k
+          · exact hs
+          · exact hs
+          · exact noZero_neg _
+          · exact noZero_neg _
+  | s2ns c ih =>
+    simp only [interp] at h
+    cases hc : c.interp with
+    | none => simp [hc] at h
+    | some r' =>
+      simp only [hc] at h
+      obtain ⟨_, hr⟩ := (Cst.strictToNonStrict_iff r' r).1 h
+      subst hr
+      exact noZero_addNum 1 (ih hc)
+  | ren c m _ =>
+    simp only [interp] at h
+    cases hc : c.interp with
+    | none => simp [hc] at h
+    | some r' =>
+      simp only [hc, Option.some.injEq] at h; subst h
+      exact noZero_rename _ m
+
+/-- every constraint built through the public interface has a canonical expression -/
+theorem interp_canonical {c : CTerm} {r : Cst} (h : c.interp = some r) : r.expr.Canonical :=
+  ⟨interp_sorted h, interp_noZero h⟩
 
 /-- the replayed constraint holds exactly where the history's meaning holds -/
 theorem sat_interp {c : CTerm} {r : Cst} (h : c.interp = some r) (σ : Var → Int) :
